@@ -797,8 +797,17 @@ func (t *Teamserver) EventListenerError(ListenerName string, Error error) {
 	t.EventBroadcast("", pk)
 
 	// a listener that failed to start is not running: it must neither stay in the listener
-	// list nor be restored from the database at the next start
+	// list nor be restored from the database at the next start. the name may have been given
+	// to another listener in the meantime (removed and added again): that one is not ours
 	t.ListenersMtx.Lock()
+	for _, listener := range t.Listeners {
+		if listener.Name == ListenerName {
+			if h, ok := listener.Config.(*handlers.HTTP); ok && h.Active {
+				t.ListenersMtx.Unlock()
+				return
+			}
+		}
+	}
 	if t.listenerTake(ListenerName) != nil {
 		if err := t.DB.ListenerRemove(ListenerName); err != nil {
 			logger.Error("Failed to remove listener: ", ListenerName)
